@@ -63,9 +63,10 @@ MaxOf(S) == CHOOSE x \in S : \A y \in S : x >= y
 (* Initial file (initNewFile)                                              *)
 (***************************************************************************)
 Al0 == IF InitMeta = 0
-       THEN [dFree |-> {}, mFree |-> {}, dEnd |-> 2, mEnd |-> 2, mTot |-> 0, flp |-> {}, max |-> MaxPages]
+       THEN [dFree |-> {}, mFree |-> {}, dEnd |-> 2, mEnd |-> 2, mTot |-> 0, flp |-> {}, max |-> MaxPages,
+             da |-> {}, mv |-> {}, ov |-> {}]
        ELSE [dFree |-> {}, mFree |-> 3..(2 + InitMeta - 1), dEnd |-> 2 + InitMeta, mEnd |-> 2 + InitMeta,
-             mTot |-> InitMeta, flp |-> {2}, max |-> MaxPages]
+             mTot |-> InitMeta, flp |-> {2}, max |-> MaxPages, da |-> {}, mv |-> {}, ov |-> {}]
 Fl0 == IF InitMeta = 0 THEN 0 ELSE 2
 
 Init ==
@@ -80,13 +81,17 @@ Init ==
   /\ ntx = 0 /\ nops = 0 /\ ver = 0
 
 (***************************************************************************)
-(* Allocator helpers (alloc.go)                                            *)
+(* Allocator helpers (alloc.go).  Besides the free lists and end markers   *)
+(* the allocator record carries what the running transaction records for   *)
+(* its rollback (txAllocState): da = pages it took from the data freelist, *)
+(* mv = pages it moved from the data area into the meta area, ov = pages   *)
+(* it took from the overflow area.                                         *)
 (***************************************************************************)
 CanExtend(a) == a.dEnd < a.max /\ a.dEnd < NP
 
 \* take one data page: lowest free page, else the end of the data area
 DataTake(a) ==
-  IF a.dFree # {} THEN LET p == MinOf(a.dFree) IN [ok |-> TRUE, p |-> p, a |-> [a EXCEPT !.dFree = @ \ {p}]]
+  IF a.dFree # {} THEN LET p == MinOf(a.dFree) IN [ok |-> TRUE, p |-> p, a |-> [a EXCEPT !.dFree = @ \ {p}, !.da = @ \cup {p}]]
   ELSE IF CanExtend(a) THEN [ok |-> TRUE, p |-> a.dEnd,
                              a |-> [a EXCEPT !.dEnd = @ + 1, !.mEnd = Max(a.mEnd, a.dEnd + 1)]]
   ELSE [ok |-> FALSE, p |-> 0, a |-> a]
@@ -97,12 +102,12 @@ Grow(a, n) ==
   IF n = 0 THEN a
   ELSE LET t == DataTake(a) IN
        IF ~t.ok THEN a
-       ELSE Grow([t.a EXCEPT !.mFree = @ \cup {t.p}, !.mTot = @ + 1], n - 1)
+       ELSE Grow([t.a EXCEPT !.mFree = @ \cup {t.p}, !.mTot = @ + 1, !.mv = @ \cup {t.p}], n - 1)
 
 \* overflow area: when the data area has nothing left, a transaction that enabled it takes the
 \* page at the meta end marker (beyond the limit) into the meta freelist (metaManager.tryGrow)
 GrowOverflow(a) ==
-  IF a.mEnd < NP THEN [a EXCEPT !.mFree = @ \cup {a.mEnd}, !.mEnd = @ + 1, !.mTot = @ + 1] ELSE a
+  IF a.mEnd < NP THEN [a EXCEPT !.mFree = @ \cup {a.mEnd}, !.mEnd = @ + 1, !.mTot = @ + 1, !.ov = @ \cup {a.mEnd}] ELSE a
 
 \* make sure one meta page is free
 Ensure(a, ovf) ==
@@ -211,10 +216,31 @@ Checkpoint ==
 (***************************************************************************)
 (* Abort                                                                   *)
 (***************************************************************************)
+\* allocator.Rollback as the code does it, from what the transaction recorded:
+\*   meta.rollback  : pages beyond the old meta end marker leave the meta freelist, the meta pages
+\*                    the transaction allocated (below the old marker) return to it
+\*   moveToMeta     : leave the meta freelist and the meta total; the ones from within the old
+\*                    data area count as allocated data pages
+\*   fromOverflow   : leave the meta freelist and the meta total
+\*   data.rollback  : pages beyond the old data end marker leave the data freelist, the data
+\*                    pages the transaction took from the freelist return to it
+RolledBack(a, t) ==
+  LET a0 == t.al0
+      mF1 == (a.mFree \ {p \in a.mFree : p >= a0.mEnd}) \cup {p \in t.mAlloc : p < a0.mEnd}
+      mF2 == mF1 \ a.mv
+      dAll == a.da \cup {p \in a.mv : p < a0.dEnd}
+      mF3 == mF2 \ a.ov
+      dF == (a.dFree \ {p \in a.dFree : p >= a0.dEnd}) \cup {p \in dAll : p < a0.dEnd}
+  IN [a EXCEPT !.dFree = dF, !.mFree = mF3, !.dEnd = a0.dEnd, !.mEnd = a0.mEnd,
+               !.mTot = a.mTot - Cardinality(a.mv) - Cardinality(a.ov),
+               !.da = {}, !.mv = {}, !.ov = {}]
+
 Rollback ==
   /\ tx # NoTx /\ tx.pc \in {"body", "flushed", "prepared", "allocated", "serialized", "synced1"}
                                \cup (IF AbortAfterHeader THEN {"header"} ELSE {})
-  /\ al' = tx.al0
+  /\ al' = RolledBack(al, tx)
+  \* C07: what the recorded state restores is exactly the allocator of Begin
+  /\ Assert(al' = tx.al0, <<"RollbackExact: allocator after rollback", al', "at Begin", tx.al0>>)
   /\ tx' = NoTx
   /\ lk' = [lk EXCEPT !.res = FALSE, !.pe = FALSE]
   \* a header that was already written may win after a crash: C08 allows that state
@@ -343,6 +369,7 @@ CSwitch ==
   /\ LET c == tx.cs IN
      /\ al' = [al EXCEPT !.dFree = c.dFree, !.mFree = c.mFree,
                          !.dEnd = c.dEnd, !.mEnd = c.mEnd, !.mTot = c.mTot,
+                         !.da = {}, !.mv = {}, !.ov = {},
                          !.flp = IF c.allocUpd2 THEN (IF c.flPg = 0 THEN {} ELSE {c.flPg}) ELSE @]
      /\ wm' = IF c.walUpd THEN [map |-> c.map, pgs |-> IF c.walPg = 0 THEN {} ELSE {c.walPg}] ELSE wm
      /\ hdr' = [slot |-> 1 - hdr.slot, txid |-> hdr.txid + 1, root |-> tx.root, fl |-> c.flPg, wal |-> c.walPg,
@@ -380,7 +407,8 @@ EndRead(r) ==
 RecoverFrom(img) ==
   LET s == Pick(At(img, 0), At(img, 1))  h == img[s]  rb == Rebuild(img, h) IN
   /\ s # 2 /\ rb.ok
-  /\ al' = [dFree |-> rb.dFree, mFree |-> rb.mFree, dEnd |-> h.dEnd, mEnd |-> h.mEnd, mTot |-> h.mTot, flp |-> rb.fpg, max |-> h.max]
+  /\ al' = [dFree |-> rb.dFree, mFree |-> rb.mFree, dEnd |-> h.dEnd, mEnd |-> h.mEnd, mTot |-> h.mTot, flp |-> rb.fpg, max |-> h.max,
+            da |-> {}, mv |-> {}, ov |-> {}]
   /\ wm' = [map |-> rb.map, pgs |-> rb.wpg]
   /\ hdr' = [slot |-> s, txid |-> h.txid, root |-> h.root, fl |-> h.fl, wal |-> h.wal, dEnd |-> h.dEnd, mEnd |-> h.mEnd, mTot |-> h.mTot, max |-> h.max]
   /\ cm' = [root |-> h.root, pages |-> [p \in rb.live |-> LET c == At(img, Phys(rb.map, p)) IN IF c.k = "D" THEN c.q ELSE UndefPage]]
